@@ -159,6 +159,14 @@ async fn scenario(ctx: &Ctx, rng: &mut Rng, epmd: &net::EpmdTable, id: usize, sc
                     };
                     let _ = peer.write_frame4(&reply_frame(&ghost, 424242)).await;
                 }
+                // and a SEND to the call's own reply pid that carries no payload at all (a shorter frame right after
+                // a longer one): there is nothing to deliver, the call keeps waiting for its real reply
+                if k % 2 == 0 {
+                    let control = Val::Tuple(vec![Val::int(2), Val::atom(""), r.reply_to.clone()]);
+                    let mut b = vec![112u8];
+                    b.extend(ref_encode_canonical(&control).unwrap());
+                    let _ = peer.write_frame4(&b).await;
+                }
             }
             if missing {
                 continue;
